@@ -568,10 +568,10 @@ func (hash Hash) String() string {
 }
 
 func (hash Hash) Equal(other Hash) bool {
+	if len(hash) != len(other) {
+		return false
+	}
 	for i := range hash {
-		if i == len(other) {
-			break
-		}
 		if hash[i] != other[i] {
 			return false
 		}
